@@ -13,6 +13,9 @@ def max_stdlib_exponent : Nat := 2147483647
 def min_rsa_modulus_bits : Nat := 1024
 def oversized_limit : Nat := 5456
 def own_verifier_algorithms : List Nat := [5, 7, 8, 10, 13, 14, 15]
+def rdata_fold_all : List Nat := [2, 3, 4, 5, 6, 7, 8, 9, 12, 14, 15, 17, 18, 21, 24, 26, 33, 35, 36, 39]
+def rdata_fold_any : List Nat := [2, 3, 4, 5, 6, 7, 8, 9, 12, 14, 15, 17, 18, 21, 24, 26, 33, 35, 36, 39]
+def rdata_name_types : List Nat := [2, 3, 4, 5, 6, 7, 8, 9, 12, 14, 15, 17, 18, 21, 23, 24, 26, 30, 33, 35, 36, 39, 46, 47, 55, 58, 64, 65, 107, 249, 250]
 def rsa_prefix_algorithms : List Nat := [5, 7, 8, 10]
 def rsa_prefixes : List (List Nat) := [[48, 33, 48, 9, 6, 5, 43, 14, 3, 2, 26, 5, 0, 4, 20], [48, 33, 48, 9, 6, 5, 43, 14, 3, 2, 26, 5, 0, 4, 20], [48, 49, 48, 13, 6, 9, 96, 134, 72, 1, 101, 3, 4, 2, 1, 5, 0, 4, 32], [48, 81, 48, 13, 6, 9, 96, 134, 72, 1, 101, 3, 4, 2, 3, 5, 0, 4, 64]]
 
